@@ -471,3 +471,50 @@ class Pred:
             if not instrument.PROBING:
                 GATE_LOG.append((gate.name, part, r))
         return r
+
+
+def generate_fanout(seed, tie='prng'):
+    """Fan-out models for the idle-longest rule: a sender feeding 2-4 parallel plain single-slot
+    devices (handlers, resource-free processors, sinks) with different cycle times."""
+    rng = random.Random(core.stable_int('fanout', seed))
+    items = []
+    items.append({'id': 'S1', 'kind': 'source', 'ct': rng.choice([0.25, 0.5, 0.5, 1]), 'budget': None,
+                  'values': [1, 2], 'qualities': [1]})
+    sender = 'S1'
+    if rng.random() < 0.5:
+        items.append({'id': 'H2', 'kind': 'handler', 'up': ['S1'], 'ct': rng.choice([0, 0.25, 0.5])})
+        sender = 'H2'
+    elif rng.random() < 0.4:
+        items.append({'id': 'B2', 'kind': 'buffer', 'up': ['S1'], 'cap': rng.choice([2, 4, None]), 'delay': 0})
+        sender = 'B2'
+    k = rng.choice([2, 2, 3, 3, 4])
+    par = []
+    for j in range(k):
+        pid = f'X{j + 3}'
+        kind = rng.choice(['handler', 'handler', 'processor', 'sink'])
+        ct = rng.choice([0.5, 0.75, 1, 1.5, 2, 2.5, 3, 0.625, 1.125])
+        if kind == 'processor':
+            items.append({'id': pid, 'kind': 'processor', 'up': [sender], 'ct': ct, 'res': None,
+                          'wo': {'x': [1, 0, 0], 'y': [0.5, 0, 0]}})
+        elif kind == 'sink':
+            items.append({'id': pid, 'kind': 'sink', 'up': [sender], 'ct': ct, 'collect': True})
+        else:
+            items.append({'id': pid, 'kind': 'handler', 'up': [sender], 'ct': ct})
+        par.append((pid, kind))
+    ups = [p for p, kd in par if kd != 'sink']
+    if ups:
+        items.append({'id': 'K99', 'kind': 'sink', 'up': ups, 'ct': 0, 'collect': rng.random() < 0.5})
+    horizon = float(rng.choice([20, 30, 40]))
+    script = []
+    for _ in range(rng.choice([0, 2, 4, 6])):
+        t = grid_time(rng, horizon)
+        tgt = rng.choice(par)[0]
+        op = rng.choice(['block', 'block', 'fail'])
+        if op == 'fail' and dict(par)[tgt] != 'processor':
+            op = 'block'
+        script.append({'t': t, 'prio': rng.choice(PRIOS), 'op': op, 'target': tgt})
+        script.append({'t': min(horizon, t + rng.choice([0.5, 1, 2, 3])), 'prio': rng.choice(PRIOS),
+                       'op': 'unblock' if op == 'block' else 'restore', 'target': tgt})
+    script.sort(key=lambda e: e['t'])
+    return {'resources': {}, 'items': items, 'horizon': [horizon], 'tie': tie, 'seed': seed,
+            'max_events': 20000, 'script': script, 'profile': 'fanout'}
